@@ -19,6 +19,7 @@ K: the property does not say WHICH spanning tree is returned, and the theorems h
 from lib import *  # noqa
 import gen
 from koala.lattice import Lattice, LatticeException
+import argforms as AF
 from koala.graph_utils import plaquette_spanning_tree
 from koala.flux_finder import fluxes_from_ujk, n_to_ujk_flipped
 
@@ -128,6 +129,26 @@ def digits(n, k):
     return [int(x) for x in s]
 
 
+# ------------------------------------------------------------------ argument forms (argforms.py)
+# n_to_ujk_flipped(n: int, ujk: np.ndarray(+-1), min_spanning_set: np.ndarray(int)): dtype / memory layout of the base bonds and of
+# the tree's edge list, and Python int vs numpy integer for n, are not part of their value; the result (int8 bonds) must be the same.
+AF_FORMS = {"n_to_ujk_flipped.ujk": ["int64", "int8", "int16", "int32", "float64", "float32", "int64+readonly", "int8+readonly", "float64+readonly",
+                                     "int64+strided", "int8+strided", "float64+strided"],
+            "n_to_ujk_flipped.min_spanning_set": ["int64", "int8", "uint8", "int16", "int32", "uint32", "intp", "int64+readonly", "int32+strided", "int64+list"]}
+AF_N = ["int", "np.int64", "np.int32", "np.int16", "np.uint8", "np.uint32", "np.uint64", "np.intp"]
+AF_EXCLUDED = {("n_to_ujk_flipped.ujk", "list/tuple"): "type hint np.ndarray; fancy assignment ujk_flipped[min_spanning_set] = ... needs an array (list: TypeError, tuple: no .copy())",
+               ("n_to_ujk_flipped.min_spanning_set", "tuple / float array"): "type hint np.ndarray(int); a tuple is one index per axis (IndexError)",
+               ("n_to_ujk_flipped.n", "float / bool"): "type hint int; format(n, '0kb') rejects floats"}
+
+
+def arg_forms(res, arg, values, *key):
+    for (a, f), why in AF_EXCLUDED.items():
+        AF.exclude(res, a, f, why)
+    if arg == "n_to_ujk_flipped.n":
+        return AF.choose_scalar(res, arg, values, AF_N, *key)
+    return AF.choose(res, arg, values, AF_FORMS[arg], *key, base=np.int64)
+
+
 def flipped_spec(lat, u, tree, ns, res, viol):
     """n_to_ujk_flipped on the implementation for the given n values.  Returns dict n -> result
     (list of ints) and the observed (pi, s) digit map or None."""
@@ -138,11 +159,11 @@ def flipped_spec(lat, u, tree, ns, res, viol):
     u0 = u.copy()
 
     def call(n):
-        r = n_to_ujk_flipped(n, u, tree)
-        if not np.array_equal(u, u0):
-            viol("input-modified", f"n_to_ujk_flipped(n={n}) modified the bond array passed to it", {"n": int(n)})
-            u[:] = u0
-        if r is u or np.shares_memory(r, u):
+        uf, tf = arg_forms(res, "n_to_ujk_flipped.ujk", u0, n), arg_forms(res, "n_to_ujk_flipped.min_spanning_set", t, n, [int(x) for x in u0])
+        r = n_to_ujk_flipped(arg_forms(res, "n_to_ujk_flipped.n", n, k), uf, tf)
+        if not np.array_equal(uf, u0) or not np.array_equal(tf, t):
+            viol("input-modified", f"n_to_ujk_flipped(n={n}) modified the bond array / the tree passed to it", {"n": int(n)})
+        if r is uf or np.shares_memory(r, uf):
             viol("input-aliased", f"n_to_ujk_flipped(n={n}) returned (a view of) its input array", {"n": int(n)})
         rl = [int(x) for x in np.asarray(r).ravel()]
         if len(rl) != E or any(float(x) != int(x) for x in np.asarray(r).ravel()):
